@@ -63,7 +63,8 @@ type Run struct {
 
 	ReorderNum, ReorderDen int // probability of a non-natural lock grant
 
-	Holds []*Hold
+	Holds       []*Hold
+	MaxHoldTime time.Duration
 
 	Log       []string
 	Viol      *Violation
@@ -89,6 +90,7 @@ func newRun(t *Tape) *Run {
 	r.Stats.Faults = map[string]int{}
 	r.Stats.Probes = map[string]int{}
 	r.maxSched = 200000
+	r.MaxHoldTime = 50 * time.Millisecond
 	return r
 }
 
@@ -96,7 +98,21 @@ func newRun(t *Tape) *Run {
 func (r *Run) Now() time.Duration { return time.Since(r.T0) }
 
 func (r *Run) Logf(format string, a ...interface{}) {
-	r.Log = append(r.Log, fmt.Sprintf("s%03d t=%s ", r.Step, fmtDur(r.Now()))+fmt.Sprintf(format, a...))
+	l := fmt.Sprintf("s%03d t=%s ", r.Step, fmtDur(r.Now())) + fmt.Sprintf(format, a...)
+	r.Log = append(r.Log, l)
+	if logFile != nil {
+		fmt.Fprintln(logFile, l)
+	}
+}
+
+// logFile, when set (VERIF_LOG_FILE), receives every log line as it is produced, so the trace of a run that
+// kills the process survives.
+var logFile *os.File
+
+func init() {
+	if p := os.Getenv("VERIF_LOG_FILE"); p != "" {
+		logFile, _ = os.OpenFile(p, os.O_WRONLY|os.O_APPEND|os.O_CREATE, 0o644)
+	}
 }
 
 func fmtDur(d time.Duration) string {
@@ -320,6 +336,18 @@ func (r *Run) SleepUntil(max time.Duration, cond func() bool) bool {
 		if rem <= 0 {
 			return cond == nil
 		}
+		if r.HeldNow() {
+			// a held goroutine is a descheduled thread: legal for a finite time only. Unless the scenario
+			// asked for a long hold, let at most MaxHoldTime of fake time pass, then let it run.
+			left := r.MaxHoldTime - r.oldestHoldAge()
+			if left <= 0 {
+				r.ReleaseHolds()
+				continue
+			}
+			if left < rem {
+				rem = left
+			}
+		}
 		timer := time.NewTimer(rem)
 		before := time.Now()
 		select {
@@ -390,4 +418,16 @@ func shortSig(s string) string {
 		s = s[i+1:]
 	}
 	return s
+}
+
+func (r *Run) oldestHoldAge() time.Duration {
+	var age time.Duration
+	for _, h := range r.Holds {
+		if h.W != nil && !h.Released {
+			if a := time.Since(h.At); a > age {
+				age = a
+			}
+		}
+	}
+	return age
 }
